@@ -8,9 +8,9 @@ open Flatland.Markup Flatland.Markup.Json Flatland.C11 Flatland.Generated.C11
 def ofParsed (p : Option Parsed) : Json :=
   match p with
   | none => Json.null
-  | some p => obj [("tag", ofChars p.tag),
-      ("attrs", ofList (fun (kv : List Char × List Char) => Json.arr #[ofChars kv.1, ofChars kv.2]) p.attrs),
-      ("text", ofChars p.text)]
+  | some p => obj [("tag", ofStr p.tag),
+      ("attrs", ofList (fun (kv : List Char × List Char) => Json.arr #[ofStr kv.1, ofStr kv.2]) p.attrs),
+      ("text", ofStr p.text)]
 
 def runTag (j : Json) : Except String Json := do
   let T := Tables.current
@@ -27,16 +27,16 @@ def runTag (j : Json) : Except String Json := do
     match g.callTag T attrChain voidElements staticAttributeOrder tag bind kwargs with
     | .error e => return obj [("out", Json.null), ("err", Json.str e.name), ("parsed", Json.null)]
     | .ok (s, _) =>
-      let parsed := if (Dict.get? kwargs "contents".toList).isSome then Json.null
-                    else ofParsed (parseTag decodeRefs voidElements s)
-      return obj [("out", ofChars s), ("err", Json.null), ("parsed", parsed)]
+      -- the generator sets "parse" on data-only cases (no Markup value, no contents)
+      let parsed := if (← bfld j "parse") then ofParsed (parseTag decodeRefs voidElements s) else Json.null
+      return obj [("out", ofStr s), ("err", Json.null), ("parsed", parsed)]
 
 def runSugar (j : Json) : Except String Json := do
   let u ← cfld j "u"
   let x := sugar xChain u
   let xa := sugar xaChain u
-  return obj [("x", ofChars x), ("xa", ofChars xa),
-    ("x_dec", ofChars (decodeRefs x)), ("xa_dec", ofChars (decodeRefs xa))]
+  return obj [("x", ofStr x), ("xa", ofStr xa),
+    ("x_dec", ofStr (decodeRefs x)), ("xa_dec", ofStr (decodeRefs xa))]
 
 def run (j : Json) : Except String Json := do
   match (← sfld j "k") with
